@@ -168,7 +168,28 @@ def rule_verify(ctx, repo):
     others = [n for n in rets if n not in final]
     r.check(bool(others) and all(norm(n.value) == 'False' for n in others), 'failure-arms', fi.site, '%d early exits, all False' % len(others), 'an early exit returns %s' % [norm(n.value) for n in others if norm(n.value) != 'False'])
     guards = [norm(n.test) for n in walk_no_nested(fi.node) if isinstance(n, ast.If)]
-    r.check('not sig' in guards and 'not norm_sig' in guards and 'derlen == 0' in guards, 'failure-arms:tests', fi.site, 'empty signature, undecodable DER, empty re-encoding', 'failure tests are %s' % guards)
+    from ..rules import canon_text
+    cg = [canon_text(g_) for g_ in guards]
+    missing, unclear = [], []
+    for var_, accepted in ((fi.params[2] if len(fi.params) > 2 else 'sig', ['not sig', 'len(sig) == 0', "sig == b''"]), ('norm_sig', ['not norm_sig', 'norm_sig.value is None', 'not norm_sig.value']),
+                           ('derlen', ['derlen == 0', 'not derlen', 'derlen <= 0', 'derlen < 1'])):
+        acc_ = {canon_text(a_.replace('sig', var_) if var_ == fi.params[-1] and False else a_) for a_ in accepted}
+        if any(g_ in acc_ for g_ in cg) or any(g_ in accepted for g_ in guards):
+            continue
+        # a disjunction of accepted spellings of the same failure is that failure
+        if any(isinstance(n.test, ast.BoolOp) and isinstance(n.test.op, ast.Or) and all(norm(v_) in accepted for v_ in n.test.values)
+               for n in walk_no_nested(fi.node) if isinstance(n, ast.If)):
+            continue
+        if any(re.search(r'\b%s\b' % re.escape(var_), g_) for g_ in guards):
+            unclear.append(var_)
+        else:
+            missing.append(var_)
+    if missing:
+        r.violated('failure-arms:tests', fi.site, 'failure tests are %s: nothing is tested on %s (empty signature, undecodable DER, empty re-encoding must each answer False)' % (guards, missing))
+    elif unclear:
+        r.undecided('failure-arms:tests', fi.site, 'failure tests are %s: the test on %s was not recognised' % (guards, unclear))
+    else:
+        r.ok('failure-arms:tests', fi.site, 'empty signature, undecodable DER, empty re-encoding')
     pv = repo.get_function(K + 'CPubKey.verify')
     rets = [norm(n.value) for n in walk_no_nested(pv.node) if isinstance(n, ast.Return)]
     r.check(rets == ['self._cec_key.verify(%s, %s)' % (pv.params[1], pv.params[2])], 'CPubKey.verify', pv.site, 'delegates', 'CPubKey.verify returns %s' % rets)
